@@ -58,6 +58,21 @@ impl View for Bytes { type V = Seq<u8>; closed spec fn view(&self) -> Seq<u8> { 
 impl Bytes {
     #[verifier::external_body]
     pub fn as_ref(&self) -> (r: &[u8]) ensures r@ == self@ { unimplemented!() }
+    #[verifier::external_body]
+    pub fn copy_from_slice(s: &CryptoVec) -> (r: Bytes) ensures r@ == s@ { unimplemented!() }
+    #[verifier::external_body]
+    pub fn len(&self) -> (n: usize) ensures n == self@.len() { unimplemented!() }
+}
+pub open spec fn ends_with_spec(s: Seq<u8>, suffix: Seq<u8>) -> bool {
+    suffix.len() <= s.len() && s.subrange(s.len() - suffix.len(), s.len() as int) == suffix
+}
+impl CryptoVec {
+    #[verifier::external_body]
+    pub fn ends_with(&self, suffix: &[u8]) -> (r: bool) ensures r == ends_with_spec(self@, suffix@) { unimplemented!() }
+    #[verifier::external_body]
+    pub fn len(&self) -> (n: usize) ensures n == self@.len() { unimplemented!() }
+    #[verifier::external_body]
+    pub fn is_empty(&self) -> (r: bool) ensures r == (self@.len() == 0) { unimplemented!() }
 }
 pub struct CryptoVec { pub v: Vec<u8> }
 impl View for CryptoVec { type V = Seq<u8>; closed spec fn view(&self) -> Seq<u8> { self.v@ } }
@@ -78,6 +93,14 @@ impl BytesMut {
     { unimplemented!() }
     #[verifier::external_body]
     pub fn freeze(self) -> (r: Bytes) ensures r@ == self@ { unimplemented!() }
+    #[verifier::external_body]
+    pub fn len(&self) -> (n: usize) ensures n == self@.len() { unimplemented!() }
+    #[verifier::external_body]
+    pub fn is_empty(&self) -> (r: bool) ensures r == (self@.len() == 0) { unimplemented!() }
+    #[verifier::external_body]
+    pub fn clear(&mut self) ensures final(self)@ == Seq::<u8>::empty() { unimplemented!() }
+    #[verifier::external_body]
+    pub fn split(&mut self) -> (r: BytesMut) ensures r@ == old(self)@, final(self)@ == Seq::<u8>::empty() { unimplemented!() }
 }
 // memchr::memmem::Finder::new(needle).find(hay): first occurrence or None iff none; `&BytesMut` derefs to &[u8]
 pub struct Finder;
